@@ -569,6 +569,9 @@ for _p in ('C18', 'C15'):
 # both element classifiers of the C14 filters are proved by Verus on the verbatim code (units c14_param_classifier, c18_string_tables)
 PROPS['C14']['verus'] = PROPS['C14'].get('verus', []) + ['c14_param_classifier', 'c18_string_tables']
 
+# the response builders (required members carried over, every optional member unset) are proved by Verus on the verbatim code (unit c02_builders)
+PROPS['C02']['verus'] = PROPS['C02'].get('verus', []) + ['c02_builders']
+
 
 # Harnesses that were written and calibrated but cannot be discharged in this sandbox (CBMC exceeds the 24 GB address-space limit
 # or one hour, alone on the machine); they stay in /verif/kani for reference and are run by no check.  What they were meant to add is
